@@ -29,7 +29,7 @@ def handle (l : Line) : Verdict :=
       let hc := String.ofList ((List.range 4).map fun k => if k = c then '1' else '0')
       let hm := String.ofList ([m, m ^^^ 1, m ^^^ 0x800, 0, 0xfff].map fun k => if k = m then '1' else '0')
       exact "mtype fcm" l.obs
-        s!"wire={w} wire2={w} cls={c} meth={m} hc={hc} hm={hm} resp={if c ≥ 2 then 1 else 0}"
+        s!"wire={w} wire2={w} wire3={w} wire4={w} cls={c} meth={m} hc={hc} hm={hm} resp={if c ≥ 2 then 1 else 0}"
     | _, _ => .bad "mtype fcm args" ""
   | "tid" =>
     match ofHex (l.kv.get "x") with
